@@ -876,6 +876,10 @@ impl AWorker {
             let _ = guard(|| m.count_of_free_value_piece());
             let _ = guard(|| m.count_of_free_key_piece());
             let _ = guard(|| m.key_length_stats());
+            let _ = guard(|| m.value_length_stats());
+            let _ = guard(|| m.key_piece_size_stats());
+            let _ = guard(|| m.value_piece_size_stats());
+            let _ = guard(|| m.htx_filling_rate_per_mill());
             let _ = guard(|| m.get_string(&key[..]));
             let ks: Vec<&[u8]> = cfg.keys.iter().map(|k| &k[..]).collect();
             let _ = guard(|| m.bulk_get_string(&ks));
